@@ -102,6 +102,8 @@ def tlc(work, name, module, cfg, workers=None, timeout=600, extra=(), files=None
     cmd += list(extra)
     cmd.append(module + ".tla")
     env = dict(os.environ)
+    # deep TLA+ recursion over token sequences needs a large Java thread stack
+    env["JAVA_TOOL_OPTIONS"] = (env.get("JAVA_TOOL_OPTIONS", "") + " -Xss512m").strip()
     rc, out, wall = run(cmd, cwd=d, timeout=timeout, env=env)
     with open(os.path.join(d, "tlc.out"), "w") as fh:
         fh.write(out)
